@@ -91,7 +91,7 @@ def sanitize(sc):
 
 def decorate(scs, *, seed, calls_choices=(("invoke",), ("stream",), ("invoke", "stream"), ("stream", "invoke")),
              snode_frac=0.35, strm_branch_frac=0.3, noid_frac=0.0, state_frac=0.0, fail_variants=False, state_variants=False,
-             delay_frac=0.5, echo_frac=0.0, wrap_frac=0.3, rmax_frac=0.0, anyout_frac=0.0, all_paradigms=False, nilout_frac=0.0, pipe_frac=0.0, dopt_frac=0.0, storefail_frac=0.0):
+             delay_frac=0.5, echo_frac=0.0, wrap_frac=0.3, rmax_frac=0.0, anyout_frac=0.0, all_paradigms=False, nilout_frac=0.0, pipe_frac=0.0, dopt_frac=0.0, storefail_frac=0.0, empty_frac=0.0):
     """Secondary dimensions that TLC does not enumerate are spread deterministically (seeded) over the scenarios."""
     rnd = random.Random(seed)
     for i, sc in enumerate(scs):
@@ -156,6 +156,13 @@ def decorate(scs, *, seed, calls_choices=(("invoke",), ("stream",), ("invoke", "
                     inner["state"] = True
                     inner["post"] = rnd.random() < 0.5
                     inner["hmod"] = rnd.random() < 0.5
+        if empty_frac and not sc.get("fail") and not sc.get("echo") and not sc.get("anyout") and sc.get("lower") != "chain" and rnd.random() < empty_frac:
+            cand = [n for n in sc["nodes"] if n not in (sc.get("sub") or {}) and n not in sc.get("rerun", [])]
+            if cand:
+                # a node whose output stream ends without a chunk; the whole run in stream mode (in value mode the node itself could not be called)
+                sc["fail"] = [{"n": cand[rnd.randrange(len(cand))], "kind": "empty"}]
+                sc["calls"] = ["stream"]
+                sc.pop("chunks", None)
         if storefail_frac and not sc.get("noid") and (sc.get("before") or sc.get("after") or sc.get("rerun") or sc.get("sub")) and rnd.random() < storefail_frac:
             sc["storefail"] = True
         if pipe_frac and sc["snodes"] and not sc.get("anyout") and rnd.random() < pipe_frac:
